@@ -104,6 +104,9 @@ def classify(p, self_id, want_field, payload_env_name=None):
     return "other:from-%s" % ",".join(sorted(str(x) for x in srcfields))
 
 
+# rules of sibling properties that decide code on this property's own call path: remap_jar answers every reference through the BRemapper default methods / map_desc (C06) and re-opens only if the writer is exact (C02)
+PREMISES = [("C06", ["R06.1", "R06.4"]), ("C02", ["R02.1", "R02.2", "R02.3"])]
+
 def run(F, R, tier):
     duke = F.crate("duke")
     box = F.crate("dukebox")
